@@ -32,7 +32,7 @@ func NewSafeValue(val Value, types ...string) SafeValue {
 	for _, k := range types {
 		safeFor[k] = true
 	}
-	if v, ok := val.(SafeValue); ok {
+	if v, ok := val.(SafeValue); ok && !nilReceiver(v, "Value") && !nilReceiver(v, "SafeFor") {
 		for _, k := range v.SafeFor() {
 			safeFor[k] = true
 		}
